@@ -29,8 +29,12 @@ macro "doc_simp" : tactic => `(tactic|
       Mode.pilChannels, Mode.nbands, applyRoutes, traverse, Route.apply, Px.view, Function.comp_def,
       List.range, List.range.loop, Meta.transparencyIndex, firstZero, pyIndex, Image.invert])
 
+/-- laws at every depth give the laws at each depth -/
+theorem Px.Lawful.at {P : Px α σ} (h : P.Lawful) (d : Nat) : P.LawfulAt d :=
+  ⟨h.inv_inv, h.load_store d⟩
+
 /-- `topil()` of a freshly imported document, for an image that needs no normalisation -/
-theorem doc_core (C : Pil α) (P : Px α σ) (hP : P.Lawful) (img : Image α) (hwf : img.WF)
+theorem doc_core (C : Pil α) (P : Px α σ) (hP : P.LawfulAt 8) (img : Image α) (hwf : img.WF)
     (h1 : img.mode ≠ .one) (h2 : img.mode ≠ .RGBA) :
     exportDocPil P (docImport C P img).1 (docImport C P img).2 = .ok (some img) := by
   have hls := hP.load_store
@@ -51,7 +55,7 @@ theorem doc_core (C : Pil α) (P : Px α σ) (hP : P.Lawful) (img : Image α) (h
 
 /-- `topil()` of a freshly imported RGBA document: the white background is "removed" from
 colour planes that were stored as they came. -/
-theorem doc_core_rgba (C : Pil α) (P : Px α σ) (hP : P.Lawful) (w h : Nat) (r g b a : List α) :
+theorem doc_core_rgba (C : Pil α) (P : Px α σ) (hP : P.LawfulAt 8) (w h : Nat) (r g b a : List α) :
     let img : Image α := { mode := .RGBA, width := w, height := h, bands := [r, g, b, a] }
     exportDocPil P (docImport C P img).1 (docImport C P img).2 = .ok (some
       { img with bands := [List.zipWith P.unmatte r a, List.zipWith P.unmatte g a,
@@ -68,8 +72,8 @@ macro "lay_simp" : tactic => `(tactic|
 
 /-- export ∘ (the layer import after the conversion), for a converted image of a mode the
 document can have -/
-theorem layer_converted (P : Px α σ) (hP : P.Lawful) (alpha : Option (List α)) (j : Image α) (hj : j.WF)
-    (hdr : Header) (hb : hdr.cmode ≠ .bitmap) (al : Bool) (hm : j.mode = hdr.cmode.pilMode al)
+theorem layer_converted (P : Px α σ) (hdr : Header) (hP : P.LawfulAt hdr.depth) (alpha : Option (List α)) (j : Image α) (hj : j.WF)
+    (hb : hdr.cmode ≠ .bitmap) (al : Bool) (hm : j.mode = hdr.cmode.pilMode al)
     (top left : Int) :
     ∃ l, layerOfConverted P alpha j hdr.depth top left = .ok l ∧
       (l.top, l.left, l.bottom, l.right) = (top, left, top + j.height, left + j.width) ∧
@@ -104,6 +108,59 @@ theorem layer_converted (P : Px α σ) (hP : P.Lawful) (alpha : Option (List α)
     obtain ⟨c, m, y, k, rfl⟩ := len4 hjl
     cases alpha <;> refine ⟨_, rfl, ?_, ?_, ?_⟩ <;> lay_simp <;> simp [hls, hii, this] <;> omega
 
+/-- `layer.numpy()` of the layer import after the conversion: the colour bands in the storage convention
+(inverted for CMYK — the NumPy path never inverts back), then the transparency; every sample is what
+the view makes of the stored sample. -/
+theorem layer_converted_numpy {β : Type} (P : Px α σ) (V : View σ β) (hdr : Header) (alpha : Option (List α))
+    (j : Image α) (hj : j.WF) (hb : hdr.cmode ≠ .bitmap) (al : Bool) (hm : j.mode = hdr.cmode.pilMode al)
+    (top left : Int) :
+    ∃ l, layerOfConverted P alpha j hdr.depth top left = .ok l ∧
+      exportLayerNumpy V hdr l = .ok
+        (((if hdr.cmode = .cmyk then j.invert P else j).bands.take hdr.cmode.channels ++
+            [alpha.getD (List.replicate (j.width * j.height) P.full)]).map
+          (·.map fun x => V.load (P.store hdr.depth x))) := by
+  obtain ⟨jm, jw, jh, jb⟩ := j
+  obtain ⟨cm, ch, dp, dw, dh⟩ := hdr
+  obtain ⟨hjl, _⟩ := hj
+  simp only at hm hjl
+  subst hm
+  cases cm
+  · exact absurd rfl hb
+  · cases al <;> simp only [CMode.pilMode, Mode.nbands] at hjl
+    · obtain ⟨g, rfl⟩ := len1 hjl
+      cases alpha <;> refine ⟨_, rfl, ?_⟩ <;> lay_simp
+    · obtain ⟨g, a, rfl⟩ := len2 hjl
+      cases alpha <;> refine ⟨_, rfl, ?_⟩ <;> lay_simp
+  · cases al <;> simp only [CMode.pilMode, Mode.nbands] at hjl
+    · obtain ⟨r, g, b, rfl⟩ := len3 hjl
+      cases alpha <;> refine ⟨_, rfl, ?_⟩ <;> lay_simp
+    · obtain ⟨r, g, b, a, rfl⟩ := len4 hjl
+      cases alpha <;> refine ⟨_, rfl, ?_⟩ <;> lay_simp
+  · have : CMode.cmyk.pilMode al = .CMYK := by cases al <;> rfl
+    simp only [this, Mode.nbands] at hjl
+    obtain ⟨c, m, y, k, rfl⟩ := len4 hjl
+    cases alpha <;> refine ⟨_, rfl, ?_⟩ <;> lay_simp <;> simp [this]
+
+/-- `numpy()` of a freshly imported document (no normalisation needed, not RGBA): every plane in the
+storage convention -/
+theorem doc_core_numpy {β : Type} (C : Pil α) (P : Px α σ) (V : View σ β) (img : Image α) (hwf : img.WF)
+    (h1 : img.mode ≠ .one) (h2 : img.mode ≠ .RGBA) :
+    exportDocNumpy V (docImport C P img).1 (docImport C P img).2 = .ok
+      ((if img.mode = .CMYK then img.invert P else img).bands.map (·.map fun x => V.load (P.store 8 x))) := by
+  obtain ⟨mode, w, h, bands⟩ := img
+  obtain ⟨hl, _⟩ := hwf
+  cases mode <;> simp only [Mode.nbands] at hl
+  · exact absurd rfl h1
+  · obtain ⟨a, rfl⟩ := len1 hl
+    doc_simp
+  · obtain ⟨a, b, rfl⟩ := len2 hl
+    doc_simp
+  · obtain ⟨a, b, c, rfl⟩ := len3 hl
+    doc_simp
+  · exact absurd rfl h2
+  · obtain ⟨a, b, c, d, rfl⟩ := len4 hl
+    doc_simp
+
 /-- the alpha taken by `layerImport` before the conversion is the source's alpha band -/
 theorem alpha_extraction (C : Pil α) (hC : C.Lawful) (img : Image α) (hwf : img.WF) :
     (if img.mode.hasAlpha then (getBand (C.conv .RGBA img) 3).map some else .ok none)
@@ -122,6 +179,33 @@ theorem alpha_extraction (C : Pil α) (hC : C.Lawful) (img : Image α) (hwf : im
       | cons y ys => exact ⟨_, List.getLast?_eq_some_getLast (by simp)⟩
     simp [h, getBand, hc, hx, Except.map]
   · simp [h]
+
+/-- `PixelLayer.frompil` is the import of the converted image with the alpha of the (normalised) source -/
+theorem layerImport_eq (C : Pil α) (hC : C.Lawful) (P : Px α σ) (img : Image α) (hwf : img.WF) (hdr : Header)
+    (top left : Int) :
+    layerImport C P img hdr top left
+      = layerOfConverted P (srcAlpha (normalise C img)) (C.conv hdr.pilMode (normalise C img)) hdr.depth top left := by
+  have hsrc : (normalise C img).WF := by
+    unfold normalise; split
+    · exact hC.conv_wf _ _ hwf
+    · exact hwf
+  have ha := alpha_extraction C hC (normalise C img) hsrc
+  have hdef : layerImport C P img hdr top left =
+      (match (if (normalise C img).mode.hasAlpha then (getBand (C.conv .RGBA (normalise C img)) 3).map some else Except.ok none) with
+        | Except.error e => Except.error e
+        | Except.ok alpha => layerOfConverted P alpha (C.conv hdr.pilMode (normalise C img)) hdr.depth top left) := rfl
+  rw [hdef, ha]
+
+theorem normalise_wf (C : Pil α) (hC : C.Lawful) (img : Image α) (hwf : img.WF) : (normalise C img).WF := by
+  unfold normalise; split
+  · exact hC.conv_wf _ _ hwf
+  · exact hwf
+
+theorem normalise_size (C : Pil α) (hC : C.Lawful) (img : Image α) :
+    (normalise C img).width = img.width ∧ (normalise C img).height = img.height := by
+  unfold normalise; split
+  · exact ⟨hC.conv_width _ _, hC.conv_height _ _⟩
+  · exact ⟨rfl, rfl⟩
 
 /-- Python indexing and Python's modulo pick the same plane -/
 theorem pyIndex_emod (n : Nat) (i : Int) (a : Nat) (h : pyIndex n i = some a) :
